@@ -31,7 +31,7 @@ impl Prop for Sources {
          library writes). (a) EVERY truncation length 0..=L of the .shp read without index: t<100 => open fails; otherwise every record \
          wholly inside the retained bytes is returned equal to the model, then the cut record is an Err(IoError), t=L ends cleanly; EVERY \
          truncation of the .shx with the full .shp: with_shx fails exactly when t < 100+8n, never panics. (b) a source failing its k-th \
-         read/seek for EVERY k a full traversal (open, iterate, every read_nth) issues, on .shp and on .shx: the API call in progress \
+         read/seek for EVERY k a full traversal (open, iterate, seek(k)+read for every k incl. past the end, every read_nth) issues, on .shp and on .shx: the API call in progress \
          returns the marked error. (c) sources returning at most c bytes per read (c = 1,2,3,7, one generated sequence) give identical \
          shapes. Inner evaluations = truncations + injected runs. Non-trivial: a multi-part record (cuts fall strictly inside record bodies)"
     }
@@ -191,6 +191,38 @@ fn traverse(
         }
     }
     if with_index {
+        // seek(k) for every k incl. one past the end, each followed by one read
+        for kk in (0..=n).rev() {
+            let was = fired();
+            match r.seek(kk) {
+                Ok(()) => ensure!(fired() == was, "fault-swallowed", "{}: the source failed during seek({}) but it returned Ok", what, kk),
+                Err(e) => {
+                    ensure!(fired() && !was, "spurious-error", "{}: seek({}) fails without an injected fault: {}", what, kk, err_str(&e));
+                    ensure!(matches!(&e, Error::IoError(io) if is_marked(io)), "wrong-error", "{}: seek({}) surfaced the injected failure as {:?}", what, kk, e);
+                    return Ok(());
+                }
+            }
+            let was = fired();
+            let item = r.iter_shapes().next();
+            match item {
+                None => {
+                    ensure!(fired() == was, "fault-swallowed", "{}: the source failed during next() after seek({}) but it returned None", what, kk);
+                    ensure!(kk == n, "count", "{}: nothing to read after seek({}) of {}", what, kk, n);
+                }
+                Some(Ok(s)) => {
+                    ensure!(fired() == was, "fault-swallowed", "{}: the source failed during next() after seek({}) but it returned a shape", what, kk);
+                    ensure!(kk < n, "invented-shape", "{}: a shape after seek({}) of {}", what, kk, n);
+                    if let Err(m) = cmp_read(&model.recs[kk].geom, &view_shape(&s)) {
+                        fail!("wrong-shape", "{}: first shape after seek({}): {}", what, kk, m);
+                    }
+                }
+                Some(Err(e)) => {
+                    ensure!(fired() && !was, "spurious-error", "{}: next() after seek({}) fails without an injected fault: {}", what, kk, err_str(&e));
+                    ensure!(matches!(&e, Error::IoError(io) if is_marked(io)), "wrong-error", "{}: next() after seek({}) surfaced the injected failure as {:?}", what, kk, e);
+                    return Ok(());
+                }
+            }
+        }
         for i in (0..n).rev() {
             let was = fired();
             match r.read_nth_shape(i) {
